@@ -228,10 +228,10 @@ func (s *scripted) Run() error {
 	if s.idx < 0 {
 		return s.runHandler()
 	}
+	snap := w.snapshot() // takes the node locks: never under w.mu (Signal holds a node lock while it logs a Kill)
 	w.mu.Lock()
 	w.att[s.idx]++
 	a := w.att[s.idx]
-	snap := w.snapshot()
 	var wait chan struct{}
 	var d time.Duration
 	switch w.c.Policy {
@@ -922,6 +922,10 @@ func main() {
 	}
 	startEnv = os.Environ()
 	log.SetOutput(io.Discard)
+	if len(os.Args) > 3 && os.Args[2] == "agentstop" {
+		agentStopMain(os.Args[1], os.Args[3])
+		return
+	}
 	os.Setenv("VERIF_PRE_MET", "1")
 	os.Unsetenv("VERIF_PRE_UNMET")
 	executor.Register("verifscript", func(ctx context.Context, step dag.Step) (executor.Executor, error) {
